@@ -140,6 +140,11 @@ def run(v, tier, seed):
         v.violation({"what": "model and implementation disagree; no protected key was altered or faked on any observed trace", "case": name,
                      "ops": [render(o) for o in ops[:step + 1]], "step": step, "impl": decode_tok(x), "model": decode_tok(y), "disagreeing_cases": len(diffs),
                      "broken_obligation": "correspondence core/C08 (Model/Core.v check_read_only and its call sites)"}, no_input=True)
-    v.cov.update({"evaluations": ncases, "distinct_nontrivial": len(nontrivial), "steps": nsteps, "disagreements": len(diffs), "requests_refused_read_only": rejected,
+    rstats = {}
+    if not v.violations:
+        import restcheck
+        rstats = restcheck.check_sys(v, work, known=v.known)
+    v.cov.update({"evaluations": ncases, "distinct_nontrivial": len(nontrivial), "steps": nsteps, "disagreements": len(diffs), "requests_refused_read_only": rejected, **rstats,
+                  "rest_rule": "over the REST front end of a real server: set, delete, pdelete (literal and `$SYS/#`), a foreign grave-goods registration, the key `$SYS` and an import, then $SYS/version must read as before and none of the writes may have been served; `pdelete ?/version` is F4 again",
                   "rule": f"sentinel keys under $SYS planted by the internal client + internal psubscribe of $SYS/#; every key/pattern shape with first segment in {{$SYS,?,#,user}} and continuations to depth {depth} ({len(ks)} shapes) x 11 request kinds (set, cset v0/v1, delete, pdelete, publish, spub, lock, acquire, as grave good and as last will followed by disconnect), from client 1 against its own and client 2's entries, + {nrand} random sequences; projection: full store dump + events seen by the internal observer after every request; non-trivial = at least one request refused as read-only",
                   "samples": samples, "exhaustive": True})
